@@ -42,11 +42,22 @@ pub fn table_of<T: KS>(
     min_obs: usize,
     colours: &[u8],
 ) -> Vec<(T, (Exts, Pay))> {
+    table_of_opt(reads, stranded, min_obs, colours, true)
+}
+
+/// as table_of; with `prune == false` the extensions towards filtered-out k-mers are kept (dangling bits)
+pub fn table_of_opt<T: KS>(
+    reads: &[Vec<u8>],
+    stranded: bool,
+    min_obs: usize,
+    colours: &[u8],
+    prune: bool,
+) -> Vec<(T, (Exts, Pay))> {
     let seqs = to_seqs(reads);
     let (hash, _) = filter_kmers::<T, _, _, _, _>(&seqs, &Box::new(CountFilter::new(min_obs)), stranded, false, 1);
     let mut tbl: Vec<(T, (Exts, Pay))> = hash.iter().map(|(k, e, _)| (*k, (*e, (0u8, vec![0u32])))).collect();
     tbl.sort_by_key(|x| x.0);
-    if min_obs > 1 {
+    if min_obs > 1 && prune {
         remove_censored_exts(stranded, &mut tbl);
     }
     // colour = bitmask of the colours of the reads containing the k-mer (either strand when unstranded)
